@@ -1490,7 +1490,7 @@ impl fmt::Display for Type2<'_> {
         generic_args,
         ..
       } => {
-        let mut t2_str = String::new();
+        let mut t2_str = String::from("~");
 
         #[cfg(feature = "ast-comments")]
         if let Some(comments) = comments {
